@@ -279,6 +279,17 @@ def build_class(edzed, spec, idx):
             val = calc_value(calc, self.state, states)
             return edzed.UNDEF if val is KEEP else val
         ns['calc_output'] = calc_output
+    derive = spec.get('derive')
+    if derive == 'plain':
+        # an FSM definition derived from another one without any change
+        base = type(f"GenFSMBase{idx}", (edzed.FSM,), ns)
+        return type(f"GenFSM{idx}", (base,), {})
+    if derive == 'split':
+        # tables and every other callback in the base class, the rest in the derived class
+        names = sorted(n for n in ns if n.split('_')[0] in ('cond', 'enter', 'exit'))
+        upper = {n: ns.pop(n) for n in names[1::2]}
+        base = type(f"GenFSMBase{idx}", (edzed.FSM,), ns)
+        return type(f"GenFSM{idx}", (base,), upper)
     return type(f"GenFSM{idx}", (edzed.FSM,), ns)
 
 
@@ -670,6 +681,8 @@ def random_spec(rng):
             spec['on_exit'][s] = 1
         if rng.random() < 0.12:
             spec['timers'][s] = target()
+    if rng.random() < 0.15:
+        spec['derive'] = rng.choice(['plain', 'split'])
     # keep_last must not leave the FSM uninitialised after the init transition: checked by caller
     return spec, evs
 
